@@ -22,12 +22,14 @@ EXPLANATION = ('StokesLandscape.pixel2index is traced for every map shape of the
                'coordinates: strictly inside pixel (i1..ik) => index = sum i_k * stride_k (first coordinate fastest); outside the half-pixel frame in '
                'any dimension => -1; on a tie one of the two neighbours (or -1 when the neighbour is outside); integer in-map coordinates are in '
                'bijection with 0..N-1; every integer intermediate fits the chosen dtype (|p| <= 2^30) and the index dtype can hold N-1 (int32 for small maps).')
-FUNCTIONS = ['StokesLandscape.pixel2index', 'Landscape.__len__', 'StokesLandscape.__init__ (shape / pixel_shape bookkeeping)']
+FUNCTIONS = ['HealpixLandscape.world2pixel / world2index and StokesLandscape.get_coverage (concrete complement)', 'StokesLandscape.pixel2index', 'Landscape.__len__', 'StokesLandscape.__init__ (shape / pixel_shape bookkeeping)']
 BOUNDS = {'quick': 'all map shapes with 1-3 dimensions and dims in 1..4 (84 shapes) + (65536, 65536) and (2, 2**31) for the dtype clause; shape= and pixel_shape= constructors',
           'thorough': 'same + dims up to 5'}
+BOUNDS['quick'] += '; concrete complement: HEALPix nside 1-8 (thorough: up to 64), coverage maps'
 STUBS = []
 ASSUMPTIONS = ['real-valued coordinates with |p| <= 2^30 (float rounding of the coordinates themselves is outside the claim)',
-               'NOT claimed: agreement of HealpixLandscape.world2index with healpy over the sphere (third-party transcendental code) and get_coverage (integer histogram of concrete indices)']
+               'HealpixLandscape.world2index vs healpy and get_coverage are NOT decided by the solver (third-party transcendental code; jnp.unique has a data-dependent shape and cannot be traced): '
+               'they are compared concretely (healpy ring index on the 16 sub-pixel centres of every pixel, with phi shifted by 0 and +-2 pi; coverage against numpy.bincount) as a complement']
 RULE = 'case = map shape x constructor; non-trivial = more than one pixel; distinct keys'
 BUDGET = {'quick': 400, 'thorough': 1800}
 CASE_TIMEOUT = {'quick': 240, 'thorough': 600}
@@ -46,6 +48,11 @@ def cases(tier, seed):
     out.append(('p2i', (2, 2 ** 31), 'shape'))
     out.append(('p2i', (2 ** 31,), 'shape'))
     out.append(('p2i', (2 ** 31 + 1,), 'shape'))
+    # concrete complements (no solver): HEALPix lookup against healpy on points strictly inside pixels, coverage = histogram
+    for nside in ((1, 2, 4, 8) if tier == 'quick' else (1, 2, 4, 8, 16, 32, 64)):
+        out.append(('healpix', nside))
+        out.append(('coverage', nside))
+    out.append(('coverage-flat', (3, 2)))
     return out
 
 
@@ -64,9 +71,86 @@ def _landscape(shape, how):
     return Flat(None, 'I', pixel_shape=tuple(shape)[::-1])
 
 
+def _interior_directions(nside):
+    """Centres of the pixels of the 4x finer map: each lies strictly inside one pixel of the nside map (no boundary ties)."""
+    import healpy as hp
+    fine = 4 * nside
+    theta, phi = hp.pix2ang(fine, np.arange(12 * fine * fine))
+    return np.asarray(theta, np.float64), np.asarray(phi, np.float64)
+
+
+def _healpix(key):
+    import healpy as hp
+    from furax.landscapes import HealpixLandscape
+    _, nside = key
+    bad = []
+    theta, phi = _interior_directions(nside)
+    for stokes in ('I', 'IQU'):
+        ls = HealpixLandscape(nside, stokes)
+        if len(ls) != 12 * nside * nside or tuple(ls.shape) != (12 * nside * nside,):
+            bad.append(f'len/shape {len(ls)}/{ls.shape} for nside {nside}')
+        for shift in (0.0, 2 * np.pi, -2 * np.pi):
+            want = hp.ang2pix(nside, theta, phi)
+            got = np.asarray(ls.world2index(jnp.asarray(theta), jnp.asarray(phi + shift)))
+            if got.shape != want.shape or not np.issubdtype(got.dtype, np.integer):
+                bad.append(f'world2index returns {got.dtype}{got.shape}')
+            elif (got != want).any():
+                k = int(np.flatnonzero(got != want)[0])
+                bad.append(f'nside={nside} theta={theta[k]:.6f} phi={phi[k] + shift:.6f}: world2index={int(got[k])}, healpy ring index={int(want[k])} '
+                           f'({int((got != want).sum())} of {want.size} interior directions differ)')
+        # 2-d batches keep their shape
+        g2 = np.asarray(ls.world2index(jnp.asarray(theta[:6].reshape(2, 3)), jnp.asarray(phi[:6].reshape(2, 3))))
+        if g2.shape != (2, 3) or (g2.ravel() != hp.ang2pix(nside, theta[:6], phi[:6])).any():
+            bad.append('2-d batch of directions')
+    if bad:
+        return violation('HEALPix lookup: ' + '; '.join(sorted(set(bad))[:3]), signature=f'c17-healpix:{nside}', kind='healpix')
+    return ok(obligations=0, concrete_checks=6 * theta.size, nontrivial=True, sample=dict(case=f'healpix nside={nside}', directions=int(theta.size), note='concrete comparison with healpy (ring), interior points only'))
+
+
+def _coverage(key):
+    import healpy as hp
+    from furax.landscapes import HealpixLandscape
+    from furax.samplings import Sampling
+    bad = []
+    if key[0] == 'coverage-flat':
+        shape = tuple(key[1])
+        ls = _landscape(shape, 'shape')
+        pix = shape[::-1]
+        coords = [np.array(v, np.float64) for v in zip(*[c for c in itertools.product(*[range(n) for n in pix]) for _ in range(1 + sum(c) % 3)])]
+        samp = Sampling(jnp.asarray(coords[0]), jnp.asarray(coords[1]), jnp.zeros(coords[0].size))
+        cov = np.asarray(ls.get_coverage(samp))
+        want = np.zeros(shape, np.int64)
+        for a, b in zip(coords[0].astype(int), coords[1].astype(int)):
+            want[b, a] += 1
+        if cov.shape != shape or (cov != want).any() or cov.sum() != coords[0].size:
+            bad.append(f'flat map {shape}: coverage {cov.tolist()} != histogram {want.tolist()}')
+    else:
+        nside = key[1]
+        theta, phi = _interior_directions(nside)
+        rng = np.random.default_rng(nside)
+        sel = np.concatenate([rng.integers(0, theta.size, 5 * 12 * nside * nside), np.zeros(7, int), np.full(3, theta.size - 1)])
+        ls = HealpixLandscape(nside, 'IQU')
+        for shape in ((sel.size,), (2, sel.size // 2)):
+            th, ph = theta[sel][: shape[-1] * (shape[0] if len(shape) > 1 else 1)].reshape(shape), phi[sel][: shape[-1] * (shape[0] if len(shape) > 1 else 1)].reshape(shape)
+            cov = np.asarray(ls.get_coverage(Sampling(jnp.asarray(th), jnp.asarray(ph), jnp.zeros(shape))))
+            want = np.bincount(hp.ang2pix(nside, th.ravel(), ph.ravel()), minlength=12 * nside * nside)
+            if cov.shape != tuple(ls.shape) or not np.issubdtype(cov.dtype, np.integer):
+                bad.append(f'coverage has {cov.dtype}{cov.shape}')
+            elif (cov != want).any() or int(cov.sum()) != th.size:
+                k = int(np.flatnonzero(cov != want)[0]) if (cov != want).any() else -1
+                bad.append(f'nside={nside} samples{shape}: coverage[{k}]={int(cov[k])} but {int(want[k])} samples hit that pixel; sum={int(cov.sum())} for {th.size} samples')
+    if bad:
+        return violation('coverage map: ' + '; '.join(bad[:3]), signature=f'c17-coverage:{key[1]}', kind='coverage')
+    return ok(obligations=0, concrete_checks=2, nontrivial=True, sample=dict(case=repr(key), note='concrete: coverage == histogram of hits, sums to the number of samples'))
+
+
 def run_case(key, twin=False):
     if key and key[0] == 'twin':
         return run_case(key[1], twin=True)
+    if key[0] == 'healpix':
+        return _healpix(key)
+    if key[0] in ('coverage', 'coverage-flat'):
+        return _coverage(key)
     _, shape, how = key
     shape = tuple(shape)
     ls = _landscape(shape, how)
@@ -183,6 +267,9 @@ def replay(key, model, info):
     if key and key[0] == 'twin':
         key, twin = key[1], True
     key = _tuplify(key)
+    if key[0] in ('healpix', 'coverage', 'coverage-flat'):
+        r = run_case(key)
+        return r['status'] == 'violation', r.get('what', 'ok')
     _, shape, how = key
     kind = info.get('kind')
     if kind in ('ctor', 'dtype'):
